@@ -206,6 +206,33 @@ def through_server(net, handler, prefix, url):
     return bytes(tr.wire), net.loop.time() - t0, tr
 
 
+def hostless_upstreams(rep):
+    """C17 "contacts only the host and port of its configured upstream", for configurations whose upstream names NO host
+    (gemini://, gemini:/// - what a template with an unset variable produces): such a location must not come into being,
+    or at least nothing a client sends may choose whom the proxy contacts."""
+    n = 0
+    for up in ("gemini://", "gemini:///", "gemini:////", "gemini://:1965", "gemini://:1965/"):
+        for strip, prefix, path in ((False, "/", "//203.0.113.77:1999/secret?x=1"), (True, "/api/", "/api///203.0.113.77:1999/x"),
+                                    (True, "/api", "/api//203.0.113.77:1999/x")):
+            n += 1
+            try:
+                h = make_handler(up, prefix, strip)
+            except ValueError:
+                continue                  # refused at construction: what a configuration without a host deserves
+            net = Net()
+            try:
+                wire, el, tr = through_server(net, h, prefix, "gemini://front.ex" + path)
+                contacted = list(net.conns)
+            finally:
+                net.close()
+            if contacted:
+                rep.violation({"formula": "OnlyUpstream", "hostless": True},
+                              "OnlyUpstream falsified: proxy location prefix=%r strip=%s with the host-less upstream %r was accepted, and the request %r made it contact %s (the client chose the server)" % (
+                                  prefix, strip, up, "gemini://front.ex" + path, contacted), None)
+    rep.add("hostless_upstream_cases", n)
+    rep.add("traces_validated_against_impl", n)
+
+
 def plain(x):
     if isinstance(x, dict):
         return {k: plain(v) for k, v in x.items()}
@@ -224,6 +251,7 @@ def c17(rep, rnd, thorough):
     rep.set("deviation_selftests", [{"deviation": d, "caught_by": c} for d, c, _ in dev])
     if dev[0][1] is None:
         raise tlc.TLCError("self-test: DevStripAnywhere not caught")
+    hostless_upstreams(rep)
     cases = [s for s in states if s["out"]["k"] == "map" and list(s["path"])[:len(s["prefix"])] == list(s["prefix"])]
     rep.set("routable_cases_enumerated", len(cases))
     rnd.shuffle(cases)
